@@ -76,25 +76,26 @@ type Attempt struct {
 // ---------------------------------------------------------------- nodes
 
 type Node struct {
-	w                  *World
-	Name               string
-	IP                 net.IP
-	Addr               string // ip:9042
-	DC                 string
-	HostID             primitive.UUID
-	Up                 bool // accepts connections
-	Blackhole          bool // dials hang, traffic is swallowed
-	Stalled            bool // receives requests but never answers (not even heartbeats)
-	FailPeersQueries   int  // the next so many system.peers queries are answered with an error (system.local works): a refresh that fails half-way
-	FailControlQueries bool // answers system.local / system.peers with an error (a contact point that cannot serve)
-	InCluster          bool // listed in system tables of the other nodes
-	MaxVersion         primitive.ProtocolVersion
-	DSE                bool
-	Prepared           map[string]string // hex id -> query
-	Conns              []*BackendConn
-	Keyspaces          map[string]bool // keyspaces that exist (lower-cased, unquoted form)
-	BusyKeyspaces      map[string]bool // keyspaces for which a USE is answered OVERLOADED
-	Restarts           int
+	w                    *World
+	Name                 string
+	IP                   net.IP
+	Addr                 string // ip:9042
+	DC                   string
+	HostID               primitive.UUID
+	Up                   bool // accepts connections
+	Blackhole            bool // dials hang, traffic is swallowed
+	Stalled              bool // receives requests but never answers (not even heartbeats)
+	FailPeersQueries     int  // the next so many system.peers queries are answered with an error (system.local works): a refresh that fails half-way
+	FailControlQueries   bool // answers system.local / system.peers with an error (a contact point that cannot serve)
+	InCluster            bool // listed in system tables of the other nodes
+	MaxVersion           primitive.ProtocolVersion
+	DSE                  bool
+	Prepared             map[string]string // hex id -> query
+	Conns                []*BackendConn
+	Keyspaces            map[string]bool // keyspaces that exist (lower-cased, unquoted form)
+	BusyKeyspaces        map[string]bool // keyspaces for which a USE is answered OVERLOADED
+	SilentControlQueries int             // that many system.local / system.peers queries get no answer at all
+	Restarts             int
 	// RespCompress: 0 follow the request's connection setting for every frame, 1 never, 2 per-frame choice
 	RespCompress  int
 	AuthUser      string // if set, PasswordAuthenticator with this user/password
@@ -110,24 +111,26 @@ type Node struct {
 }
 
 type BackendConn struct {
-	Node        *Node
-	Link        *simnet.Link
-	ID          int
-	inbuf       []byte
-	Version     primitive.ProtocolVersion
-	Compression string
-	Keyspace    string
-	Started     bool
-	Registered  bool
-	Closed      bool
-	Control     bool // saw a REGISTER or system-table query: it is (or was) a control connection
-	Outstanding map[int16]bool
-	Frames      int
-	authPending bool
-	authStarted bool // DSE: the mechanism was named and the challenge sent
-	stalled     [][]byte
-	Hung        bool         // answers nothing any more (OutHang)
-	Out         func([]byte) // if set, replies are written here instead of to Link
+	Node          *Node
+	Link          *simnet.Link
+	ID            int
+	inbuf         []byte
+	Version       primitive.ProtocolVersion
+	Compression   string
+	Keyspace      string
+	Started       bool
+	Registered    bool
+	Closed        bool
+	Control       bool            // saw a REGISTER or system-table query: it is (or was) a control connection
+	AnsweredPeers bool            // answered a system.peers query (the last step of establishing a control connection)
+	HeartbeatsAt  []time.Duration // when OPTIONS arrived on the established connection
+	Outstanding   map[int16]bool
+	Frames        int
+	authPending   bool
+	authStarted   bool // DSE: the mechanism was named and the challenge sent
+	stalled       [][]byte
+	Hung          bool         // answers nothing any more (OutHang)
+	Out           func([]byte) // if set, replies are written here instead of to Link
 }
 
 // Supports reports whether the node speaks protocol version v.
@@ -310,6 +313,7 @@ func (c *BackendConn) handle(raw []byte) {
 		w.Stat("backend.options")
 		if c.Started {
 			w.Stat("backend.options_on_started_conn")
+			c.HeartbeatsAt = append(c.HeartbeatsAt, w.Now())
 		}
 		c.Version = pickVersion(c.Version, hdr.Version)
 		if n.EvilHeartbeat > 0 && c.Started {
@@ -426,6 +430,11 @@ func (c *BackendConn) handleQuery(raw []byte, frm *frame.Frame, msg *message.Que
 		w.Stat("fault.control-query-fails")
 		c.replyNow(stream, &message.Overloaded{ErrorMessage: "overloaded"})
 		return
+	case n.SilentControlQueries > 0 && (uq == "SELECT * FROM SYSTEM.LOCAL" || uq == "SELECT * FROM SYSTEM.PEERS"):
+		// a node that completes the handshake and then says nothing (and keeps the connection open)
+		n.SilentControlQueries--
+		w.Stat("fault.control-query-unanswered")
+		return
 	case n.FailPeersQueries > 0 && uq == "SELECT * FROM SYSTEM.PEERS":
 		n.FailPeersQueries--
 		w.Stat("fault.peers-query-fails")
@@ -438,6 +447,7 @@ func (c *BackendConn) handleQuery(raw []byte, frm *frame.Frame, msg *message.Que
 		return
 	case uq == "SELECT * FROM SYSTEM.PEERS":
 		c.Control = true
+		c.AnsweredPeers = true
 		w.Stat("backend.system_peers")
 		c.replyNow(stream, n.peersRows(c.Version))
 		return
